@@ -62,7 +62,9 @@ def _end_yaml(e, ind):
 def _proc_yaml(p, lim_quota):
     k, kind = p["key"], p["kind"]
     s = "  %s:\n" % k
-    if kind == "Cond":
+    if kind == "Cond" and p.get("impl") in COND_IMPL:
+        s += "    processor: Filter\n    parameters:\n" + COND_IMPL[p["impl"]]
+    elif kind == "Cond":
         s += "    processor: Filter\n    parameters:\n      - key: header\n        value: \"x-%s=1\"\n" % k.lower()
     elif kind == "Plain" and p.get("impl") == "transform":
         # an unconditional processor that reports the *current* stream type (like HARCollector, WriteCache, traces ...)
@@ -80,8 +82,32 @@ def _proc_yaml(p, lim_quota):
     return s
 
 
+def _filter_yaml(fl):
+    """optional filter criteria of a flow: fl["filt"] = {"status": [..], "methods": [..], "headers": [[k, v]..], "query": [[k, v]..]}"""
+    f = fl.get("filt") or {}
+    s = ""
+    if f.get("methods"):
+        s += "  method:\n" + "".join("    - %s\n" % m for m in f["methods"])
+    if f.get("headers"):
+        s += "  headers:\n" + "".join("    - key: %s\n      value: %s\n" % (k, _q(v)) for k, v in f["headers"])
+    if f.get("query"):
+        s += "  query_params:\n" + "".join("    - key: %s\n      value: %s\n" % (k, _q(v)) for k, v in f["query"])
+    if f.get("status"):
+        s += "  status_code:\n" + "".join("    - %d\n" % c for c in f["status"])
+    return s
+
+
+COND_IMPL = {   # what a Cond (Filter processor) decides on, besides the default request/response header
+    "status": "      - key: status_code_range\n        value: \"200-299\"\n",
+    "method": "      - key: method\n        value: GET\n",
+    "url": "      - key: url\n        value: \"h.test/x\"\n",
+    "endpoint": "      - key: endpoint\n        value: /x\n",
+    "mixed": "      - key: status_code_range\n        value: \"400-499\"\n      - key: method\n        value: GET\n      - key: header\n        value: \"x-f=1\"\n",
+}
+
+
 def flow_yaml(fl, lim_quota="qlim"):
-    s = "name: %s\nfilter:\n  url: %s\nprocessors:\n" % (fl["name"], _q(fl["url"]))
+    s = "name: %s\nfilter:\n  url: %s\n%sprocessors:\n" % (fl["name"], _q(fl["url"]), _filter_yaml(fl))
     if not fl["procs"]:
         s = s[:-1] + " {}\n"
     for p in fl["procs"]:
@@ -507,6 +533,75 @@ def malformed_txs(rng, n):
     return out
 
 
+def criteria_cases(rng, thorough):
+    """C05: every kind of flow filter criterion (status code lists, methods, headers, query parameters, combinations) on one
+    flow, early responses produced by ANOTHER flow selected for an overlapping URL, by the flow itself and behind a Limiter,
+    with and without quota system flows; Filter processors deciding on status / method / url on the walk behind the answer.
+    Filters are evaluated again on the response side after an early response - with no response object in the stream.
+    Which flows are selected is C03's subject: here only 'returns without panic within the bound' is claimed (nomodel)."""
+    crits = {"status200": {"status": [200]}, "status418": {"status": [418]}, "status-list": {"status": [200, 418, 500]},
+             "get": {"methods": ["GET"]}, "post": {"methods": ["POST"]}, "header": {"headers": [["x-f", "1"]]},
+             "query": {"query": [["q", "1"]]}, "all": {"status": [200, 418], "methods": ["GET", "POST"], "headers": [["x-f", "1"]], "query": [["q", "1"]]},
+             "none": {}}
+    conc = [{"id": "qw", "kind": "conc", "url": HOST + "/*"}]
+    fixed = [{"id": "qf", "kind": "fixed", "url": TXURL}]
+    cases = []
+
+    def answering(kind):
+        if kind == "gen":        # a Filter decides, the request is answered on hit
+            return flow("A", [("a", "Cond"), ("g", "Gen"), ("p", "Plain"), ("s", "Cond")],
+                        [conn(S("start"), P("a")), conn(P("a", "hit"), P("g")), conn(P("a", "miss"), S("end"))],
+                        [conn(S("start"), P("p")), conn(P("p"), S("end")), conn(P("g"), P("s")), conn(P("s", "hit"), P("p")), conn(P("s", "miss"), S("end"))])
+        return flow("A", [("l", "Lim"), ("g", "Gen"), ("p", "Plain"), ("s", "Cond")],     # answered when the limiter is above its limit
+                    [conn(S("start"), P("l")), conn(P("l", "above_limit"), P("g")), conn(P("l", "below_limit"), S("end"))],
+                    [conn(S("start"), P("p")), conn(P("p"), S("end")), conn(P("g"), P("s")), conn(P("s", "hit"), P("p")), conn(P("s", "miss"), S("end"))])
+
+    n = 0
+    for cname, crit in sorted(crits.items()):
+        for producer in ("gen", "lim"):
+            for where in ("other", "same"):
+                for quotas in ([], conc, conc + fixed):
+                    if not thorough and rng.random() < 0.45 and not (cname.startswith("status") and producer == "gen" and where == "other"):
+                        continue
+                    a = answering(producer)
+                    simpl = rng.choice(["status", "method", "url", "endpoint", "mixed", None])
+                    for p in a["procs"]:
+                        if p["key"] == "s" and simpl:
+                            p["impl"] = simpl
+                    b = flow("B", [("u", "Plain"), ("w", "Cond")], [conn(S("start"), P("w")), conn(P("w", "hit"), P("u")), conn(P("w", "miss"), S("end")), conn(P("u"), S("end"))],
+                             [conn(S("start"), P("u")), conn(P("u"), P("w")), conn(P("w", "hit"), S("end")), conn(P("w", "miss"), S("end"))],
+                             url=rng.choice([HOST + "/*", HOST + "/*", TXURL]))
+                    bimpl = rng.choice(["status", "mixed", None])
+                    if bimpl:
+                        b["procs"][1]["impl"] = bimpl
+                    if where == "other":
+                        b["filt"] = crit
+                    else:
+                        a["filt"] = crit
+                    cfg = vary_impl({"flows": [a, b], "quotas": quotas}, rng)
+                    txs = []
+                    for bits in all_inputs(cfg):
+                        for method in ("GET", "POST"):
+                            for hf in (False, True):
+                                for q in ("", "?q=1", "?q=2&z"):
+                                    if not thorough and rng.random() < 0.5:
+                                        continue
+                                    for d in ("req", "res"):
+                                        t = tx(cfg, d, bits, url=TXURL + q, flow="A")
+                                        t["method"] = method
+                                        if hf:
+                                            t["headers"]["x-f"] = "1"
+                                        if d == "res":
+                                            t["status"] = rng.choice([200, 418, 500, 0])
+                                        t["kind"] = "criteria"
+                                        txs.append(t)
+                    c = make_case("crit%d-%s-%s-%s-q%d" % (n, cname, producer, where, len(quotas)), cfg, txs)
+                    c["nomodel"] = True
+                    cases.append(c)
+                    n += 1
+    return cases
+
+
 def odd_url_txs():
     """a fixed list of transactions whose URL net/url cannot parse (or that carry no scheme) but which still reach the
     flows and quota system flows declared for h.test/* - HAProxy forwards such URLs unchanged"""
@@ -797,6 +892,7 @@ def run_property(ctx, prop):
             if c["cfg"].get("quotas") and (c["id"].startswith("h") or T):
                 c["txs"] = c["txs"] + odd_url_txs()
         rcases += quota_cases(ctx.rng) + flow_file_cases(ctx.rng) + yaml_mutants(ctx.rng, 400 if not T else 4000)
+        rcases += criteria_cases(ctx.rng, T)
     lines2, refs2, bad2 = exercise(ctx, prop, binary, rcases, "rand", reported)
     account(lines2, refs2, bad2)
     k = next((i for i, l in enumerate(lines2) if l["ev"] == "exec" and any(s.get("sid") for s in l["seq"]) and l["dir"] == "req"), None)
